@@ -187,7 +187,7 @@ class Namespace(pydsdl.Any):
 
     def __eq__(self, other: object) -> bool:
         if isinstance(other, Namespace):
-            return self._full_namespace == other._full_namespace
+            return self._namespace_components == other._namespace_components
         else:
             return False
 
@@ -195,7 +195,7 @@ class Namespace(pydsdl.Any):
         return self.full_name
 
     def __hash__(self) -> int:
-        return hash(self._full_namespace)
+        return hash(tuple(self._namespace_components))
 
     # +-----------------------------------------------------------------------+
     # | PRIVATE
